@@ -14,6 +14,12 @@ CHECKS = {
          "model checking + trace validation of the real loop under a scripted clock", "5 C03"),
  "C04": ("Loop.tla / LoopTrace.tla / MC_Loop", "TLC: MC_Loop (StopsAtFirstBoundary, ElapsedDefinition, BudgetCoversTuning, Termination); trace validation: after every round the logged elapsed time equals the declarative definition over the logged clock readings, a round runs only if Continue held, return only if it did not",
          "model checking + trace validation; the virtual clock scripts generation/call/drop costs", "5 C04"),
+ "C05": ("Stats.tla / StatsTrace.tla / LoopTrace.tla", "TLC: MC_Stats proves the ordering theorems of Stats.tla over all small sample sequences; every Stats value computed by the real code (after scripted runs and from injected sample collections incl. empty, singleton, tied) is recomputed by Stats.tla (order statistics by rank sets, existential choice of the supplying samples) and every stored duration by Loop.tla (overhead subtraction, precision clamping)",
+         "model checking + TLC as evaluator of the declarative statistics over recorded inputs", "5 C05"),
+ "C09": ("AllocTrace.tla", "TLC trace validation of the per-thread event language (req inner ret)* with equal arguments/results: AllocProfiler<LogMock> under scripted request sequences (layouts, null results, fresh threads), and a whole process whose #[global_allocator] is Outer<AllocProfiler<Inner>> logging into a pre-allocated ring (thread start-up / tear-down included)",
+         "trace validation against the forwarding protocol automaton", "5 C09"),
+ "C10": ("Tally.tla / MC_Alloc / AllocTrace.tla", "TLC: MC_Alloc proves that the incremental tally arithmetic equals the declarative definition (per-kind counts/sums, prefix maxima incl. the empty prefix) for all operation sequences up to the bound, two threads; trace validation: the real thread-local tally read back after every scripted operation on 1..8 interleaved threads equals Tally.tla's Apply; all short operation sequences of the model's domain are replayed through the real profiler",
+         "model checking + trace validation + exhaustive replay of the model's small domain", "5 C10"),
  "C06": ("Pool.tla / VStd.tla", "TLC: exhaustive MC of Pool.tla (all interleavings, panic subsets, spurious wake-ups, histories) with four necessity variants that must fail; trace validation of the real ThreadPool under the baton scheduler (random + DFS schedules) against Pool.tla (L2) with VStd monitors as fallback (L1); replay of a path cover of the model's state graph through the real pool",
          "model checking + both conformance directions; happens-before computed from the orderings the code actually passes", "5 C06"),
  "C07": ("Pool.tla / VStd.tla", "TLC: NoDeadlock invariant and <>AllDone under weak fairness on Pool.tla; on the implementation: scheduler-detected deadlocks / leaked workers are trace events rejected by NoDeadlockObserved / NoLeakObserved; preemption-bounded DFS over schedules",
